@@ -32,6 +32,12 @@ let rec app l m =
   | [] -> m
   | a :: l1 -> a :: (app l1 m)
 
+(** val pred : nat -> nat **)
+
+let pred n = match n with
+| O -> n
+| S u -> u
+
 (** val add : nat -> nat -> nat **)
 
 let rec add n m =
@@ -1171,14 +1177,17 @@ type stmt =
 | SIf of cond * stmt * stmt
 | SWhile of cond * stmt
 | SReturn of atom_e
+| SConv of var * nat * nat
+| SCallI of nat * dsite * var option * var * nat * nat * atom_e list
 
 type func = { f_nparams : nat; f_body : stmt }
 
-type program = { p_funcs : func list; p_ginit : bool list }
+type program = { p_funcs : func list; p_ginit : bool list;
+                 p_impls : fname list list }
 
 type value =
 | VNil
-| VPtr
+| VPtr of (nat * nat) option
 
 type store0 = (var * value) list
 
@@ -1208,7 +1217,7 @@ let locals_of s =
 
 let eval_atom s = function
 | ANil -> VNil
-| ANew -> VPtr
+| ANew -> VPtr None
 | AVar x -> sget s x
 
 type outcome0 =
@@ -1235,11 +1244,11 @@ let rec eval_cond s c oracle =
   | CNonNil x ->
     CVal ((match sget s x with
            | VNil -> false
-           | VPtr -> true), oracle)
+           | VPtr _ -> true), oracle)
   | CDeref (d, x) ->
     (match sget s x with
      | VNil -> CPanic d
-     | VPtr -> let (b, o) = ask oracle in CVal (b, o))
+     | VPtr _ -> let (b, o) = ask oracle in CVal (b, o))
   | CNot c1 ->
     (match eval_cond s c1 oracle with
      | CVal (b, o) -> CVal ((negb b), o)
@@ -1264,7 +1273,7 @@ let rec bind_params i = function
 let rec init_globals k = function
 | [] -> []
 | b :: gi' ->
-  app (if b then ((VG k), VPtr) :: [] else []) (init_globals (S k) gi')
+  app (if b then ((VG k), (VPtr None)) :: [] else []) (init_globals (S k) gi')
 
 (** val exec : program -> nat -> stmt -> store0 -> bool list -> outcome0 **)
 
@@ -1298,7 +1307,7 @@ let rec exec prog fuel st s oracle =
      | SDeref (d, x) ->
        (match sget s x with
         | VNil -> OPanic d
-        | VPtr -> ONormal (s, oracle))
+        | VPtr _ -> ONormal (s, oracle))
      | SIf (c, s1, s2) ->
        (match eval_cond s c oracle with
         | CVal (b, o') ->
@@ -1314,7 +1323,38 @@ let rec exec prog fuel st s oracle =
                 | x -> x)
           else ONormal (s, o')
         | CPanic d -> OPanic d)
-     | SReturn a -> OReturn ((eval_atom s a), s, oracle))
+     | SReturn a -> OReturn ((eval_atom s a), s, oracle)
+     | SConv (x, k, j) -> ONormal ((sset s x (VPtr (Some (k, j)))), oracle)
+     | SCallI (_, d, x, xi, k, m, args) ->
+       (match sget s xi with
+        | VNil -> OPanic d
+        | VPtr dyn ->
+          (match dyn with
+           | Some p ->
+             let (k', j) = p in
+             (match if Nat.eqb k k'
+                    then nth_error (nth j prog.p_impls []) m
+                    else None with
+              | Some f ->
+                (match nth_error prog.p_funcs f with
+                 | Some fd ->
+                   let after = fun s' v ->
+                     let s1 = app (globals_of s') (locals_of s) in
+                     (match x with
+                      | Some y -> sset s1 y v
+                      | None -> s1)
+                   in
+                   (match exec prog fuel' fd.f_body
+                            (app
+                              (bind_params O ((VPtr
+                                None) :: (map (eval_atom s) args)))
+                              (globals_of s)) oracle with
+                    | ONormal (s', o') -> ONormal ((after s' VNil), o')
+                    | OReturn (v, s', o') -> ONormal ((after s' v), o')
+                    | x0 -> x0)
+                 | None -> OOutOfFuel)
+              | None -> OOutOfFuel)
+           | None -> OOutOfFuel)))
 
 (** val run_program : program -> nat -> bool list -> outcome0 **)
 
@@ -1335,22 +1375,24 @@ type asite =
 | SGlobal of nat
 | SCallParam of fname * nat
 | SCallResult of fname * nat
+| SIParam of nat * nat * nat
+| SIResult of nat * nat
 
 (** val enc : asite -> site **)
 
 let enc = function
 | SParam (f, i) ->
-  mul (S (S (S (S (S O)))))
+  mul (S (S (S (S (S (S (S O)))))))
     (add
       (mul f (S (S (S (S (S (S (S (S (S (S (S (S (S (S (S (S (S (S (S (S (S
         (S (S (S (S (S (S (S (S (S (S (S (S (S (S (S (S (S (S (S (S (S (S (S
         (S (S (S (S (S (S (S (S (S (S (S (S (S (S (S (S (S (S (S (S
         O))))))))))))))))))))))))))))))))))))))))))))))))))))))))))))))))) i)
-| SResult f -> add (mul (S (S (S (S (S O))))) f) (S O)
-| SGlobal k -> add (mul (S (S (S (S (S O))))) k) (S (S O))
+| SResult f -> add (mul (S (S (S (S (S (S (S O))))))) f) (S O)
+| SGlobal k -> add (mul (S (S (S (S (S (S (S O))))))) k) (S (S O))
 | SCallParam (f, cs) ->
   add
-    (mul (S (S (S (S (S O)))))
+    (mul (S (S (S (S (S (S (S O)))))))
       (add
         (mul cs (S (S (S (S (S (S (S (S (S (S (S (S (S (S (S (S (S (S (S (S
           (S (S (S (S (S (S (S (S (S (S (S (S (S (S (S (S (S (S (S (S (S (S
@@ -1359,13 +1401,24 @@ let enc = function
         f)) (S (S (S O)))
 | SCallResult (f, cs) ->
   add
-    (mul (S (S (S (S (S O)))))
+    (mul (S (S (S (S (S (S (S O)))))))
       (add
         (mul cs (S (S (S (S (S (S (S (S (S (S (S (S (S (S (S (S (S (S (S (S
           (S (S (S (S (S (S (S (S (S (S (S (S (S (S (S (S (S (S (S (S (S (S
           (S (S (S (S (S (S (S (S (S (S (S (S (S (S (S (S (S (S (S (S (S (S
           O)))))))))))))))))))))))))))))))))))))))))))))))))))))))))))))))))
         f)) (S (S (S (S O))))
+| SIParam (k, m, i) ->
+  add
+    (mul (S (S (S (S (S (S (S O)))))))
+      (add
+        (mul (add (mul k (S (S (S (S (S (S (S (S O))))))))) m) (S (S (S (S (S
+          (S (S (S O))))))))) i)) (S (S (S (S (S O)))))
+| SIResult (k, m) ->
+  add
+    (mul (S (S (S (S (S (S (S O)))))))
+      (add (mul k (S (S (S (S (S (S (S (S O))))))))) m)) (S (S (S (S (S (S
+    O))))))
 
 type prod0 =
 | PNil
@@ -1394,6 +1447,15 @@ let asite_eqb s t =
   | SCallResult (f, c) ->
     (match t with
      | SCallResult (g, d) -> (&&) (Nat.eqb f g) (Nat.eqb c d)
+     | _ -> false)
+  | SIParam (k, m, i) ->
+    (match t with
+     | SIParam (k', m', i') ->
+       (&&) ((&&) (Nat.eqb k k') (Nat.eqb m m')) (Nat.eqb i i')
+     | _ -> false)
+  | SIResult (k, m) ->
+    (match t with
+     | SIResult (k', m') -> (&&) (Nat.eqb k k') (Nat.eqb m m')
      | _ -> false)
 
 (** val prod_eqb : prod0 -> prod0 -> bool **)
@@ -1670,6 +1732,23 @@ let rec analyze ng ctr sp f fuel st e =
     Some { a_env = None; a_trig =
       (map (fun p -> mk_trigger O p (CSite (SResult f))) (prods_of_atom e a));
       a_gsafe = (use_ok (prods_of_atom e a)) }
+  | SConv (x, _, _) ->
+    Some { a_env = (Some (aput e x (PNever :: []))); a_trig =
+      (store_triggers x (PNever :: [])); a_gsafe = true }
+  | SCallI (_, d, x, xi, k, m, args) ->
+    let res = (PSite (SIResult (k, m))) :: [] in
+    let e' = mark_stale ng e in
+    Some { a_env = (Some
+    (match x with
+     | Some y -> aput e' y res
+     | None -> e')); a_trig =
+    (app (map (fun p -> mk_trigger d p CAlways) (aget e xi))
+      (app (arg_triggers e (fun x0 -> SIParam (k, m, x0)) O args)
+        (match x with
+         | Some y -> store_triggers y res
+         | None -> []))); a_gsafe =
+    ((&&) (use_ok (aget e xi))
+      (forallb (fun a -> use_ok (prods_of_atom e a)) args)) }
 
 (** val entry_env : fname -> nat -> nat -> env **)
 
@@ -1749,6 +1828,55 @@ let dupt g cs t =
 let dups g cs tg =
   map (dupt g cs) (filter (touches g) tg)
 
+(** val convs_of : stmt -> (nat * nat) list **)
+
+let rec convs_of = function
+| SSeq (a, b) -> app (convs_of a) (convs_of b)
+| SIf (_, a, b) -> app (convs_of a) (convs_of b)
+| SWhile (_, b) -> convs_of b
+| SConv (_, k, j) -> (k, j) :: []
+| _ -> []
+
+(** val seq_from : nat -> nat -> nat list **)
+
+let rec seq_from i = function
+| O -> []
+| S n' -> i :: (seq_from (S i) n')
+
+(** val affil_method : nat -> nat -> fname -> nat -> strig list **)
+
+let affil_method k m f np =
+  (mk_trigger O (PSite (SResult f)) (CSite (SIResult (k, m)))) :: (map
+                                                                    (fun i ->
+                                                                    mk_trigger
+                                                                    O (PSite
+                                                                    (SIParam
+                                                                    (k, m,
+                                                                    i)))
+                                                                    (CSite
+                                                                    (SParam
+                                                                    (f, (S
+                                                                    i)))))
+                                                                    (seq_from
+                                                                    O
+                                                                    (pred np)))
+
+(** val affil_methods :
+    func list -> nat -> nat -> fname list -> strig list **)
+
+let rec affil_methods funcs k m = function
+| [] -> []
+| f :: row' ->
+  app
+    (match nth_error funcs f with
+     | Some fd -> affil_method k m f fd.f_nparams
+     | None -> []) (affil_methods funcs k (S m) row')
+
+(** val affil : program -> (nat * nat) -> strig list **)
+
+let affil p kj =
+  affil_methods p.p_funcs (fst kj) O (nth (snd kj) p.p_impls [])
+
 (** val calls_of : stmt -> (fname * nat) list **)
 
 let rec calls_of = function
@@ -1788,7 +1916,8 @@ let rec ctr_local ctr sp f = function
       (calls_of fd.f_body)) (ctr_local ctr sp (S f) rest)
 
 type pres = { r_decl : strig list; r_funcs : strig list list;
-              r_dups : strig list list; r_gsafe : bool; r_clocal : bool }
+              r_dups : strig list list; r_affil : strig list list;
+              r_gsafe : bool; r_clocal : bool }
 
 (** val analyze_program :
     nat -> (fname -> bool) -> (fname -> nat) -> program -> pres option **)
@@ -1799,8 +1928,9 @@ let analyze_program fuel ctr pk p =
    | Some p0 ->
      let (tss, b) = p0 in
      Some { r_decl = (decl_triggers O p.p_ginit); r_funcs = tss; r_dups =
-     (dups_all ctr sp tss O p.p_funcs); r_gsafe = b; r_clocal =
-     (ctr_local ctr sp O p.p_funcs) }
+     (dups_all ctr sp tss O p.p_funcs); r_affil =
+     (map (fun fd -> flat_map (affil p) (convs_of fd.f_body)) p.p_funcs);
+     r_gsafe = b; r_clocal = (ctr_local ctr sp O p.p_funcs) }
    | None -> None)
 
 (** val var_ok : program -> var -> bool **)
@@ -1844,6 +1974,20 @@ let rec stmt_ok p = function
 | SIf (c, a, b) -> (&&) ((&&) (cond_ok p c) (stmt_ok p a)) (stmt_ok p b)
 | SWhile (c, b) -> (&&) (cond_ok p c) (stmt_ok p b)
 | SReturn a -> atom_ok p a
+| SConv (x, _, _) -> var_ok p x
+| SCallI (_, _, x, xi, _, m, args) ->
+  (&&)
+    ((&&) ((&&) (var_ok p xi) (forallb (atom_ok p) args))
+      (match x with
+       | Some y -> var_ok p y
+       | None -> true))
+    (forallb (fun row ->
+      match nth_error row m with
+      | Some f ->
+        (match nth_error p.p_funcs f with
+         | Some fd -> Nat.eqb fd.f_nparams (S (length args))
+         | None -> false)
+      | None -> true) p.p_impls)
 
 (** val wf_program : program -> bool **)
 
@@ -1852,6 +1996,11 @@ let wf_program p =
     (match p.p_funcs with
      | [] -> true
      | fd :: _ -> Nat.eqb fd.f_nparams O)
+
+(** val impls_plain : program -> (fname -> bool) -> bool **)
+
+let impls_plain p ctr =
+  forallb (fun row -> forallb (fun f -> negb (ctr f)) row) p.p_impls
 
 (** val ctr_arity : (fname -> bool) -> fname -> func list -> bool **)
 
@@ -1908,6 +2057,11 @@ let rec assigned = function
                           | None -> [])
 | SIf (_, a, b) -> app (assigned a) (assigned b)
 | SWhile (_, b) -> assigned b
+| SConv (x, _, _) -> x :: []
+| SCallI (_, _, x0, _, _, _, _) ->
+  (match x0 with
+   | Some x -> x :: []
+   | None -> [])
 | _ -> []
 
 (** val opt_inter : pset option -> pset option -> pset option **)
@@ -1952,22 +2106,27 @@ let rec stmt_prot st p =
     let (pt, pf) = p0 in
     let (_, okb) = stmt_prot body pt in ((Some pf), ((&&) okc okb))
   | SReturn _ -> (None, true)
+  | SConv (x, _, _) -> ((Some (x :: p)), true)
+  | SCallI (_, _, x, xi, _, _, _) ->
+    ((Some (match x with
+            | Some y -> premove y p
+            | None -> p)), (pmem xi p))
 
 (** val guarded : program -> bool **)
 
 let guarded p =
   forallb (fun fd -> snd (stmt_prot fd.f_body [])) p.p_funcs
 
+(** val anil : value -> bool **)
+
+let anil = function
+| VNil -> true
+| VPtr _ -> false
+
 (** val value_eqb : value -> value -> bool **)
 
 let value_eqb a b =
-  match a with
-  | VNil -> (match b with
-             | VNil -> true
-             | VPtr -> false)
-  | VPtr -> (match b with
-             | VNil -> false
-             | VPtr -> true)
+  eqb (anil a) (anil b)
 
 (** val st_eqb : nat list -> store0 -> store0 -> bool **)
 
@@ -1998,11 +2157,11 @@ let st_subset vars s t =
 
 let hvals s = function
 | ANil -> VNil :: []
-| ANew -> VPtr :: []
+| ANew -> (VPtr None) :: []
 | AVar x0 ->
   (match x0 with
    | VL x -> (sget s (VL x)) :: []
-   | VG _ -> VNil :: (VPtr :: []))
+   | VG _ -> VNil :: ((VPtr None) :: []))
 
 (** val hcond : store0 -> cond -> bool list **)
 
@@ -2010,16 +2169,11 @@ let rec hcond s = function
 | COpaque -> true :: (false :: [])
 | CNonNil x0 ->
   (match x0 with
-   | VL x -> (match sget s (VL x) with
-              | VNil -> false
-              | VPtr -> true) :: []
+   | VL x -> (negb (anil (sget s (VL x)))) :: []
    | VG _ -> true :: (false :: []))
 | CDeref (_, x0) ->
   (match x0 with
-   | VL x ->
-     (match sget s (VL x) with
-      | VNil -> []
-      | VPtr -> true :: (false :: []))
+   | VL x -> if anil (sget s (VL x)) then [] else true :: (false :: [])
    | VG _ -> true :: (false :: []))
 | CNot c1 -> map negb (hcond s c1)
 | CAnd (c1, c2) ->
@@ -2078,16 +2232,13 @@ let rec hreach vars fuel st s =
       (match x with
        | Some y ->
          fold_right (st_add vars) []
-           (flat_map (fun s0 -> assign_all vars s0 y (VNil :: (VPtr :: [])))
-             s)
+           (flat_map (fun s0 ->
+             assign_all vars s0 y (VNil :: ((VPtr None) :: []))) s)
        | None -> s); h_bad = false }
   | SDeref (_, x) ->
     Some { h_norm =
       (match x with
-       | VL _ ->
-         filter (fun s0 -> match sget s0 x with
-                           | VNil -> false
-                           | VPtr -> true) s
+       | VL _ -> filter (fun s0 -> negb (anil (sget s0 x))) s
        | VG _ -> s); h_bad = false }
   | SIf (c, s1, s2) ->
     let st0 = filter (fun s0 -> existsb (fun b -> b) (hcond s0 c)) s in
@@ -2109,7 +2260,25 @@ let rec hreach vars fuel st s =
      | None -> None)
   | SReturn a ->
     Some { h_norm = []; h_bad =
-      (existsb (fun s0 -> existsb (fun v -> value_eqb v VNil) (hvals s0 a)) s) }
+      (existsb (fun s0 -> existsb anil (hvals s0 a)) s) }
+  | SConv (x, _, _) ->
+    Some { h_norm =
+      (fold_right (st_add vars) []
+        (flat_map (fun s0 -> assign_all vars s0 x ((VPtr None) :: [])) s));
+      h_bad = false }
+  | SCallI (_, _, x, xi, _, _, _) ->
+    let s' =
+      match xi with
+      | VL _ -> filter (fun s0 -> negb (anil (sget s0 xi))) s
+      | VG _ -> s
+    in
+    Some { h_norm =
+    (match x with
+     | Some y ->
+       fold_right (st_add vars) []
+         (flat_map (fun s0 ->
+           assign_all vars s0 y (VNil :: ((VPtr None) :: []))) s')
+     | None -> s'); h_bad = false }
 
 (** val lvar : var -> nat list **)
 
@@ -2147,13 +2316,18 @@ let rec lstmt = function
 | SIf (c, a, b) -> app (lcond c) (app (lstmt a) (lstmt b))
 | SWhile (c, b) -> app (lcond c) (lstmt b)
 | SReturn a -> latom a
+| SConv (x, _, _) -> lvar x
+| SCallI (_, _, x, xi, _, _, args) ->
+  app (match x with
+       | Some y -> lvar y
+       | None -> []) (app (lvar xi) (flat_map latom args))
 
 (** val infer_sem : nat -> func -> bool **)
 
 let infer_sem fuel fd =
   (&&) (Nat.eqb fd.f_nparams (S O))
-    (match hreach (O :: (lstmt fd.f_body)) fuel fd.f_body ((((VL O),
-             VPtr) :: []) :: []) with
+    (match hreach (O :: (lstmt fd.f_body)) fuel fd.f_body ((((VL O), (VPtr
+             None)) :: []) :: []) with
      | Some r ->
        (&&) (negb r.h_bad) (match r.h_norm with
                             | [] -> true
